@@ -586,6 +586,7 @@ pub fn stun_verdict(m: &[u8], _ctx: &AppCtx) -> AppVerdict {
     let mut i = 0;
     let mut change_ports = 0;
     let mut change_port = false;
+    let mut oversize_mapped = false;
     while i < body.len() {
         if i + 4 > body.len() {
             return AppVerdict::Unspecified("stun-malformed-tlv".into());
@@ -624,7 +625,15 @@ pub fn stun_verdict(m: &[u8], _ctx: &AppCtx) -> AppVerdict {
                 // MAPPED-ADDRESS in a request: must at least be well-formed
                 let ok = (al == 8 && v[1] == 1) || (al == 20 && v[1] == 2);
                 if !ok {
-                    return AppVerdict::Unspecified("stun-malformed-mapped-address".into());
+                    // a value LONGER than the fixed layout of its family: whether such a request is
+                    // answered is not settled, but the attribute is a well-formed TLV and the list
+                    // is walked by its declared length - the surplus bytes are not attributes, and
+                    // the attributes behind it are
+                    if (al > 8 && v[1] == 1) || (al > 20 && v[1] == 2) {
+                        oversize_mapped = true;
+                    } else {
+                        return AppVerdict::Unspecified("stun-malformed-mapped-address".into());
+                    }
                 }
             }
             _ => {}
@@ -634,6 +643,9 @@ pub fn stun_verdict(m: &[u8], _ctx: &AppCtx) -> AppVerdict {
     let _ = change_ports;
     let mut id = [0u8; 16];
     id.copy_from_slice(&m[4..20]);
+    if oversize_mapped {
+        return AppVerdict::IfAnswered(Req::Stun { id, change_port }, "stun-oversize-mapped-address".into());
+    }
     AppVerdict::Answer(Req::Stun { id, change_port })
 }
 
